@@ -337,6 +337,88 @@ def r_std(text):
     return text, n1 + n2 + n3
 
 
+def split_args(inner):
+    parts, depth, cur = [], 0, ""
+    for ch in inner:
+        if ch in "([{<" and not (ch == "<" and False):
+            depth += 1 if ch != "<" else 0
+        elif ch in ")]}":
+            depth -= 1
+        if ch == "," and depth == 0:
+            parts.append(cur.strip()); cur = ""
+        else:
+            cur += ch
+    if cur.strip():
+        parts.append(cur.strip())
+    return parts
+
+
+def r_std_algorithms(text):
+    """R16: std::accumulate(b, e, init, std::multiplies<std::size_t>()) -> VERIF_ACCUMULATE_MUL(b, e, init);
+            *std::max_element(b, e) -> VERIF_MAX_ELEMENT(b, e);
+            X.begin() / std::begin(X) -> X.m_data ; X.end() / std::end(X) -> VERIF_ARRAY_END(X)   (covfie::array ranges)"""
+    count = 0
+    text, n = re.subn(r"\bstd::begin\s*\(\s*([A-Za-z_][\w.>-]*)\s*\)", r"\1.m_data", text); count += n
+    text, n = re.subn(r"\bstd::end\s*\(\s*([A-Za-z_][\w.>-]*)\s*\)", r"VERIF_ARRAY_END(\1)", text); count += n
+    text, n = re.subn(r"\b([A-Za-z_][\w]*(?:(?:\.|->)\w+)*)\s*\.\s*c?begin\s*\(\s*\)", r"\1.m_data", text); count += n
+    text, n = re.subn(r"\b([A-Za-z_][\w]*(?:(?:\.|->)\w+)*)\s*\.\s*c?end\s*\(\s*\)", r"VERIF_ARRAY_END(\1)", text); count += n
+    for name, macro, deref in (("accumulate", "VERIF_ACCUMULATE_MUL", False), ("max_element", "VERIF_MAX_ELEMENT", True)):
+        rx = re.compile((r"\*\s*" if deref else "") + r"\bstd::" + name + r"\s*\(")
+        pos = 0
+        while True:
+            m = rx.search(text, pos)
+            if not m:
+                break
+            op = m.end() - 1
+            cp = match_close(text, op)
+            args = split_args(text[op + 1:cp])
+            if name == "accumulate":
+                if len(args) != 4 or not re.match(r"std::multiplies\s*<\s*(std::)?size_t\s*>\s*\(\s*\)$", args[3]):
+                    raise ExtractionError("std::accumulate with an unsupported operation: %r" % args)
+                rep = "%s(%s, %s, %s)" % (macro, args[0], args[1], args[2])
+            else:
+                if len(args) != 2:
+                    raise ExtractionError("std::max_element with a comparator: unsupported")
+                rep = "%s(%s, %s)" % (macro, args[0], args[1])
+            text = text[:m.start()] + rep + text[cp + 1:]
+            pos = m.start() + len(rep)
+            count += 1
+    return text, count
+
+
+def locate_call_arg(relpath, scopes, func, call_rx, arg_index=0, in_header=False, params_hint=None, occurrence=0):
+    """The arg_index-th argument of the first call matching call_rx (regex ending right before '(') inside function
+    func (body, or header for constructor mem-initialisers)."""
+    outer = locate(relpath, scopes, func, 0, params_hint)
+    text = outer.header if in_header else outer.body
+    blank = blank_preprocessor(blank_comments_and_strings(text))
+    ms = list(re.finditer(call_rx, blank))
+    if len(ms) <= occurrence:
+        raise ExtractionError("call %r not found in %s" % (call_rx, func))
+    m = ms[occurrence]
+    op = blank.index("(", m.end() - 1)
+    cp = match_close(blank, op)
+    # top-level split on the blanked text, positions preserved
+    args, depth, start = [], 0, op + 1
+    for i in range(op + 1, cp):
+        ch = blank[i]
+        if ch in "([{":
+            depth += 1
+        elif ch in ")]}":
+            depth -= 1
+        elif ch == "," and depth == 0:
+            args.append((start, i)); start = i + 1
+    args.append((start, cp))
+    if len(args) <= arg_index:
+        raise ExtractionError("call %r in %s has only %d arguments" % (call_rx, func, len(args)))
+    a, b = args[arg_index]
+    expr = text[a:b].strip()
+    base = outer.line0 + (0 if in_header else outer.header.count("\n"))
+    l0 = base + text.count("\n", 0, a)
+    l1 = base + text.count("\n", 0, b)
+    return Located(relpath, 0, 0, "/* argument %d of %s in %s */" % (arg_index, call_rx, func), expr, l0, l1, "")
+
+
 def r_auto(text):
     """R22: `auto x = e;`, `const auto x = e;`, `const auto & x = e;` -> `__auto_type x = e;` (the declared object
     is a copy; reference-ness is dropped, which is unobservable for the read-only uses in the extracted code)."""
